@@ -175,6 +175,10 @@ pub fn strings() -> Vec<Value> {
         s("2016-12-31T23:59:60Z"),
         s("+262142-12-31T23:59:60.5Z"),
         s("-262143-01-01T00:00:00Z"),
+        // 20-byte look-alikes of a plain UTC timestamp
+        s("2015-07-30T 3:26:13Z"),
+        s("+015-07-30T03:26:13Z"),
+        s("2015-07-30T03:26:.5Z"),
     ]
 }
 
